@@ -8,6 +8,7 @@ import vlib
 from vlib import Infra
 
 JUDGE = "XidTrace"
+FATAL = "fatal error: concurrent map"
 
 
 def model(ctx):
@@ -94,6 +95,14 @@ def run(ctx):
         elif ctor == "NewPortStatus":
             ops.append(dict(op="set", obj="d", f="Xid", val=[0, 0, 1, i]))
         defaults.append(dict(id="default-%s" % ctor, k="build", fam="D", top="d", ops=ops, observe=[["len", "d"], ["marshal", "d"]], kids=[]))
+    # registry lookups by name (generic builder and header lookup): the workers spell every name in a mix of cases of their own
+    lookups = []
+    names = (["NXM_NX_REG%d" % i for i in range(8)] + ["NXM_NX_CT_MARK", "NXM_NX_CT_ZONE", "NXM_NX_CT_STATE", "NXM_NX_TUN_ID",
+             "NXM_OF_IN_PORT", "NXM_OF_ETH_TYPE", "NXM_OF_IP_PROTO", "NXM_NX_PKT_MARK", "NXM_NX_CONJ_ID", "NXM_NX_IP_TTL"])
+    for i, nm in enumerate(names if q else names * 3):
+        lookups.append(dict(id="lookup-%d-%s" % (i, nm), k="build", fam="D", top="f", respell=True,
+                            ops=[dict(op="new", **{"as": "f"}, ctor="NewMatchFieldU64", args=[nm, [0, 0, 0, 0, 0, 0, 0, 1 + i % 2]])],
+                            observe=[["len", "f"], ["marshal", "f"]], kids=[]))
     if len(rows) > cap:
         step = len(rows) / float(cap)
         rows = [rows[int(i * step)] for i in range(cap)]
@@ -104,7 +113,8 @@ def run(ctx):
     if len(rest) > fcap:
         step = len(rest) / float(fcap)
         rest = [rest[int(i * step)] for i in range(fcap)]
-    rows = defaults[:len(defaults) // 2] + rows + sw + rest + defaults[len(defaults) // 2:]
+    nl = len(lookups) // 3
+    rows = defaults[:len(defaults) // 2] + lookups[:nl] + rows + lookups[nl:2 * nl] + sw + rest + lookups[2 * nl:] + defaults[len(defaults) // 2:]
     vlib.write_ndjson(corpus, rows)
     cgs = [4, 16] if q else [2, 4, 16, 64]
     cscen = [dict(id="conc-g%d" % g, k="conc", corpus=corpus, goroutines=g, rounds=1 if q else 2, maxprocs=0, expect=len(rows) * g * (1 if q else 2))
@@ -112,7 +122,21 @@ def run(ctx):
     cp = os.path.join(ctx.scratch, "scen-conc.ndjson")
     vlib.write_ndjson(cp, cscen)
     env2, rdir2 = vlib.race_env(ctx, "c14conc")
-    ctr = pipeline.record(ctx, "conc", cp, race=True, env=env2, timeout=3000)
+    try:
+        ctr = pipeline.record(ctx, "conc", cp, race=True, env=env2, timeout=3000)
+    except Infra as e:
+        if FATAL not in str(e):
+            raise
+        # the Go runtime's own detector of unsynchronised map access stopped the process (it cannot be recovered from): library state
+        # shared between goroutines was written during concurrent use.  That is the real code's behaviour, reported as it happened.
+        ctx.extra.update(conc_scenarios=len(rows), conc_goroutines=cgs, distinct_nontrivial=len(scen) + len(rows))
+        msg = str(e)
+        at = msg.find(FATAL)
+        viol = [vlib.save_replay(ctx.pid, "%s-conc-fatal" % ctx.tier, dict(
+            property=ctx.pid, sub="conc", judge=JUDGE, constants="", race=True, scenario=cscen[0], corpus_rows=rows,
+            judge_record=dict(pred="the process survives concurrent use", runtime=msg[at:at + 1500])))]
+        return vlib.finish(ctx, "model_checking", "concurrent processing of %d scenarios by %s goroutines: the Go runtime aborted the process "
+                           "(%s)" % (len(rows), cgs, msg[at:at + 60].splitlines()[0]), viol, [], [], exhaustive=False)
     nrace2, first2 = vlib.race_reports(rdir2)
     vlib.patch_obs(ctr, lambda r: r["obs"].__setitem__("races", nrace2))
     if first2:
@@ -128,7 +152,7 @@ def run(ctx):
             line = vlib.nth_line(ctr if r.get("_conc") else tr, r["line"] if "line" in r else r["reject"])
             viol.append(vlib.save_replay(ctx.pid, "%s-%s" % (ctx.tier, r["id"]), dict(
                 property=ctx.pid, sub="conc" if r.get("_conc") else "xid", judge=JUDGE, constants="", race=True,
-                scenario={k: v for k, v in line.items() if k != "obs"},
+                scenario={k: v for k, v in line.items() if k != "obs"}, **(dict(corpus_rows=rows) if r.get("_conc") else {}),
                 judge_record={k: v for k, v in r.items() if not k.startswith("_")}, race_report=first)))
     ctx.sample(dict(scenario=scen[0], note="ids elided"))
     return vlib.finish(
@@ -152,9 +176,19 @@ def run(ctx):
 def replay(ctx, obj):
     # schedule dependent: re-run the same draw several times
     sp = os.path.join(ctx.scratch, "scen-replay.ndjson")
-    vlib.write_ndjson(sp, [dict(obj["scenario"], id="replay-%d" % i) for i in range(5)])
+    scenario = dict(obj["scenario"])
+    if "corpus_rows" in obj:
+        scenario["corpus"] = os.path.join(ctx.scratch, "replay-corpus.ndjson")
+        vlib.write_ndjson(scenario["corpus"], obj["corpus_rows"])
+    vlib.write_ndjson(sp, [dict(scenario, id="replay-%d" % i) for i in range(5)])
     env, rdir = vlib.race_env(ctx, "replay")
-    tr = pipeline.record(ctx, obj.get("sub", "xid"), sp, race=True, env=env)
+    try:
+        tr = pipeline.record(ctx, obj.get("sub", "xid"), sp, race=True, env=env)
+    except Infra as e:
+        if FATAL not in str(e):
+            raise
+        print("VIOLATION property=%s replay=<this file> (reproduced: the Go runtime aborted the process: concurrent map access)" % ctx.pid)
+        return 1
     nrace, _ = vlib.race_reports(rdir)
     vlib.patch_obs(tr, lambda r: r["obs"].__setitem__("races", nrace))
     recs = vlib.judge(ctx, JUDGE, tr, workers=1, xmx="6g", label="XidTrace:replay", max_lines=4)
